@@ -54,7 +54,7 @@ class C03(Prop):
     REQUIRED_CLASSES = CLASSES + ["edit_invalid", "depth_over_limit", "truncation"]
 
     def budget(self, tier):
-        return {"workers": 10, "examples": 500 if tier == "quick" else 20000}
+        return {"workers": 10, "examples": 1000 if tier == "quick" else 20000}
 
     def fuzz_plan(self, tier):
         return [fuzzplan.parse_plan(tier, 300000, 6000000, procs_quick=6, procs_thorough=6)]
@@ -63,7 +63,7 @@ class C03(Prop):
         leaves = gens.scalars_text(strings=gens.utf8_strings(6))
         keys = st.one_of(gens.utf8_strings(4), gens.ascii_keys(3))
         docs = gens.documents(leaves, keys, max_leaves=10, max_width=4)
-        common = {"jv": docs, "rseed": st.integers(0, 2 ** 32 - 1), "bom": st.integers(0, 5).map(lambda x: x == 0)}
+        common = {"jv": docs, "rseed": st.integers(0, 2 ** 32 - 1), "bom": gens.chance(6)}
         edit = st.fixed_dictionaries(dict(common, kind=st.just("edit"),
                                           op=st.sampled_from(["delete", "insert", "replace", "dup", "swap", "truncate"]),
                                           pos=st.integers(0, 10 ** 6), byte=st.sampled_from(list(EDIT_ALPHABET))))
